@@ -8,7 +8,8 @@ import Nstd.Buffer.Model
   when the buffer does not own storage.  A fault prints `FAULT` and the state is reset.
   `eq v w` prints the result of the comparison, `state v` the white-box view
   `state <size> <capacity> <head-room|-> <own|att|dflt|stale>` of one variable (ties the
-  branch-selecting state of the model to the implementation); neither changes the state.
+  branch-selecting state of the model to the implementation), `heap` the number of live
+  allocations (ties the allocation ledger); none of them changes the state.
 -/
 open Nstd.Common
 namespace Nstd.Buffer
@@ -67,6 +68,9 @@ def stepLine (st : State) (ws : List String) : State × String :=
     | some v, some w =>
       (st, match equalBufs st v w with | some b => s!"eq {if b then 1 else 0}" | none => "FAULT")
     | _, _ => (st, "bad-op")
+  | ["heap"] =>
+    -- number of live allocations (`new char[]` not yet `delete[]`d)
+    (st, s!"heap {st.led.live.length}")
   | ["state", v] =>
     -- white-box view of one variable: size, _capacity, head-room and where the pointers point
     match v.toNat? with
@@ -74,7 +78,7 @@ def stepLine (st : State) (ws : List String) : State × String :=
       (st, match st.getBuf v with
         | some b =>
           match b.store with
-          | .own _ => s!"state {b.e - b.s} {b.cap} {b.s} own"
+          | .own _ _ => s!"state {b.e - b.s} {b.cap} {b.s} own"
           | .att _ => s!"state {b.e - b.s} {b.cap} - att"
           | .dflt c => s!"state {b.e - b.s} {b.cap} - {if c == v then "dflt" else "stale"}"
         | none => "bad-op")
